@@ -339,12 +339,15 @@ def _parse_context() -> ParseContext:
 
 
 @contextlib.contextmanager
-def _parse_scope(import_manager=None):
+def _parse_scope(import_manager=None, record_imports=False):
   _PARSE_CONTEXTS.append(ParseContext(import_manager))
   try:
     yield _parse_context()
   finally:
-    _PARSE_CONTEXTS.pop()
+    parse_context = _PARSE_CONTEXTS.pop()
+    if record_imports:
+      # Also when parsing fails: the statements before the failure took effect.
+      _IMPORTS.update(parse_context.imports)
 
 
 # Maintains the registry of configurable functions and classes.
@@ -2370,7 +2373,7 @@ def parse_config(bindings, skip_unknown=False):
   parser = config_parser.ConfigParser(bindings, ParserDelegate(skip_unknown))
   includes = []
   imports = []
-  with _parse_scope() as parse_context:
+  with _parse_scope(record_imports=True) as parse_context:
     for statement in parser:
       if isinstance(statement, config_parser.BindingStatement):
         scope, selector, arg_name, value, location = statement
@@ -2404,7 +2407,6 @@ def parse_config(bindings, skip_unknown=False):
     # Update recorded imports. Using the context's recorded imports ignores any
     # `from __gin __ ...` statements used to enable e.g. dynamic registration.
     imports.extend(statement.module for statement in parse_context.imports)
-    _IMPORTS.update(parse_context.imports)
   return includes, imports
 
 
